@@ -31,27 +31,45 @@ def cpu_value(disp, row, c):
     return {2, 0}                       # no subsystem known: "unknown subsystem" (or nothing)
 
 
-def e2e(ctx, build, scratch, exe, cat, model, tier):
+def e2e(ctx, build, scratch, exe, cat, model, tier, looms=1):
     c = CFG[model]
     M = c["ch"]
     ncpu = 3
-    spec = [{"name": "A", "cpus": [(i, i) for i in range(ncpu)], "procs": [{"pid": 100, "threads": [101, 102]}]}]
+    if looms == 1:
+        spec = [{"name": "A", "cpus": [(i, i) for i in range(ncpu)], "procs": [{"pid": 100, "threads": [101, 102]}]}]
+        cpurows = [1, 2, 3]
+        tids = [101, 102]
+        start_cpu = [0, 1]
+        ncpu_of = [3, 3]
+    else:
+        # two looms: the physical CPUs are rows 1, 2 and 4 of cpu.prv (each loom's virtual CPU follows its physical ones),
+        # but rows 1..3 of the breakdown trace
+        spec = [{"name": "A", "cpus": [(0, 0), (1, 1)], "procs": [{"pid": 100, "threads": [101]}]},
+                {"name": "B", "cpus": [(0, 0)], "procs": [{"pid": 200, "threads": [201]}]}]
+        cpurows = [1, 2, 4]
+        tids = [101, 201]
+        start_cpu = [0, 0]
+        ncpu_of = [2, 1]
     req = {"ovni": cat["ovni"]["version"], model: cat[model]["version"]}
     system = emusrv.System(spec, require=req, extra_meta={"*": {model: {"can_breakdown": True}}})
-    td = system.write(scratch.sub("t-" + model))
+    td = system.write(scratch.sub("t-%s-%d" % (model, looms)))
     pool = ServerPool(exe, td, ["-b"])
     pool.meta = system.meta if "system" in dir() else None
     try:
         if c["pv"] not in pool.local.pvts:
             raise InfraError("no %s trace with -b" % c["pv"])
         s0, s1 = 0, 1
-        prefix = [Ev(s0, "OHx", i32(0, 101) + i64(0)), Ev(s1, "OHx", i32(1, 102) + i64(0)),
-                  Ev(s0, M + "Yc", b"", 1, u32(1) + b"ta\0"), Ev(s0, M + "Yc", b"", 1, u32(2) + b"tb\0"),
-                  Ev(s0, M + "Tc", u32(1, 1)), Ev(s0, M + "Tc", u32(2, 2))]
+        prefix = [Ev(s0, "OHx", i32(start_cpu[0], tids[0]) + i64(0)), Ev(s1, "OHx", i32(start_cpu[1], tids[1]) + i64(0))]
+        if looms == 1:
+            prefix += [Ev(s0, M + "Yc", b"", 1, u32(1) + b"ta\0"), Ev(s0, M + "Yc", b"", 1, u32(2) + b"tb\0"),
+                       Ev(s0, M + "Tc", u32(1, 1)), Ev(s0, M + "Tc", u32(2, 2))]
+        else:
+            prefix += [Ev(s0, M + "Yc", b"", 1, u32(1) + b"ta\0"), Ev(s1, M + "Yc", b"", 1, u32(2) + b"tb\0"),
+                       Ev(s0, M + "Tc", u32(1, 1)), Ev(s1, M + "Tc", u32(2, 2))]
         alpha = []
         for k, si in enumerate((s0, s1)):
             pay = (lambda t: u32(t, 0)) if M == "V" else (lambda t: u32(t))
-            for cpu in range(ncpu):
+            for cpu in range(ncpu_of[k]):
                 alpha.append(Ev(si, "OAs", i32(cpu)))
             alpha += [Ev(si, "OHp"), Ev(si, "OHr"), Ev(si, M + "Tx", pay(k + 1)), Ev(si, M + "Te", pay(k + 1)),
                       Ev(si, M + "Tp", pay(k + 1)), Ev(si, M + "Tr", pay(k + 1)), Ev(si, c["neutral"][0]), Ev(si, c["neutral"][1]),
@@ -62,14 +80,15 @@ def e2e(ctx, build, scratch, exe, cat, model, tier):
         disp0 = {}
         for (n, row, tm, ty, val) in pool.local.init_lines + h0["lines"]:
             disp0[(n, row, ty)] = val
-        depth = 5 if tier == "quick" else 7
+        depth = (5 if tier == "quick" else 7) - (1 if looms > 1 else 0)
+        tag = "e2e-%s%s" % (model, "" if looms == 1 else "-2looms")
         seen = {h0["hash"]}
         frontier = [([], disp0)]
         nprobe = nacc = nchk = 0
         outcomes = set()
 
         def check(disp, hist, ev):
-            vals = [cpu_value(disp, r, c) for r in range(1, ncpu + 1)]
+            vals = [cpu_value(disp, r, c) for r in cpurows]
             rows = [disp.get((c["pv"], r, c["bd"]), 0) for r in range(1, ncpu + 1)]
             # rows must be non-decreasing and a sorted choice of one allowed value per CPU
             ok = False
@@ -82,7 +101,7 @@ def e2e(ctx, build, scratch, exe, cat, model, tier):
             if not ok:
                 # would the rows be explained if a CPU in a task body showed the body subsystem instead of its task type?
                 alt = []
-                for r in range(1, ncpu + 1):
+                for r in cpurows:
                     v = set(cpu_value(disp, r, c))
                     if disp.get(("cpu", r, c["idle"]), 0) == 100 and disp.get(("cpu", r, c["ss"]), 0) == c["body"] and disp.get(("cpu", r, c["ty"]), 0):
                         v.add(c["body"])
@@ -114,6 +133,18 @@ def e2e(ctx, build, scratch, exe, cat, model, tier):
                     nacc += 1
                     d2 = dict(d)
                     for (n, row, tm, ty, val) in r.lines:
+                        if n == c["pv"]:
+                            # "updates only the rows needed": a breakdown row is written only when its value changes, and only rows 1..ncpu exist
+                            if not (1 <= row <= ncpu):
+                                ctx.violation("%s -b: after %s a record is written for row %d of the breakdown trace, which has %d rows" % (
+                                    model, short_hist(prefix + h + [ev]), row, ncpu),
+                                    {"engine": "E3 emu_server -b", "model": model, "spec": spec, "history": [e.line() for e in prefix + h], "probe": ev.line()},
+                                    {"kind": "breakdown-row-range"})
+                            elif ty == c["bd"] and d2.get((n, row, ty)) == val:
+                                ctx.violation("%s -b: after %s breakdown row %d is written again with the value %d it already shows" % (
+                                    model, short_hist(prefix + h + [ev]), row, val),
+                                    {"engine": "E3 emu_server -b", "model": model, "spec": spec, "history": [e.line() for e in prefix + h], "probe": ev.line()},
+                                    {"kind": "breakdown-unneeded-update"})
                         d2[(n, row, ty)] = val
                     check(d2, h, ev)
                     nchk += 1
@@ -126,12 +157,12 @@ def e2e(ctx, build, scratch, exe, cat, model, tier):
             if ctx.too_many() or not frontier:
                 break
             if ctx.out_of_time(0.8):
-                ctx.cap("e2e-%s: deadline at depth %d" % (model, lvl + 1))
+                ctx.cap("%s: deadline at depth %d" % (tag, lvl + 1))
                 break
         if frontier:
-            ctx.cap("e2e-%s: depth bound %d (all states up to it expanded)" % (model, depth))
+            ctx.cap("%s: depth bound %d (all states up to it expanded)" % (tag, depth))
         ctx.add(states=len(seen), transitions=nprobe, evaluations=nprobe)
-        ctx.part("e2e-" + model, states=len(seen), probes=nprobe, accepted=nacc, row_checks=nchk, physical_cpus=ncpu, depth=depth, outcomes=len(outcomes))
+        ctx.part(tag, states=len(seen), probes=nprobe, accepted=nacc, row_checks=nchk, physical_cpus=ncpu, depth=depth, outcomes=len(outcomes))
         ctx.sample({"model": model, "history": short_hist(prefix + [alpha[0], alpha[len(alpha) // 2]])})
     finally:
         pool.close()
@@ -169,9 +200,14 @@ def run(prop, tier):
                 ctx.cap("e2e %s not started" % model)
                 continue
             e2e(ctx, build, scratch, exe, cat, model, tier)
+        for model in ("nanos6", "nosv"):
+            if ctx.out_of_time(0.8):
+                ctx.cap("e2e %s (two looms) not started" % model)
+                continue
+            e2e(ctx, build, scratch, exe, cat, model, tier, looms=2)
         ctx.cov["rule"] = ("sort_replace on every sorted array of length <= 5/7 over {0..3} x every (old in array, new in -1..4); sort module with a real bay: "
                            "every input vector of n=2..4(5) inputs over {null,1,2,3} x every set of 1..k simultaneous input changes, outputs = sorted inputs and "
-                           "unchanged outputs not rewritten; end to end with -b on 2/3 physical CPUs: breadth-first search over implementation states (depth 4/6), "
+                           "unchanged outputs not rewritten; end to end with -b on 3 physical CPUs (one loom, and two looms with 2+1 CPUs): breadth-first search over implementation states (depth 5/7, two looms 4/6), rows compared after every accepted event and every emitted breakdown record must change its row, "
                            "alphabet = affinity, pause/resume, task execute/end/pause/resume of two task types, one subsystem enter/leave, progress states")
         ctx.cov["distinct_nontrivial"] = ctx.cov["states"]
         ctx.assumptions += ["per-CPU reference values are derived from the displayed cpu.prv rows with the rule of the property statement; "
